@@ -801,10 +801,346 @@ def gen_C12(rng, tier):
 
 
 # ------------------------------------------------------------------------------------------------
+# C13 / C14 / C15 gadgets (r1cs build)
+
+def gcanon(out):
+    """strip what the relational model does not speak about: constraint/variable counts"""
+    out = re.sub(r' nc=\d+ nw=\d+ ni=\d+$', '', out)
+    out = re.sub(r'\+0(?=\||$| )', '+0', out)
+    out = re.sub(r'\+[1-9]\d*', '+N', out)
+    out = re.sub(r';inst=.*$', '', out)
+    return out
+
+
+def gfields(out):
+    d = {}
+    for tok in out.split(' '):
+        if '=' in tok:
+            k, v = tok.split('=', 1)
+            d[k] = v
+    return d
+
+
+def prog_arg(stmts):
+    """a program as a single `key=value`-safe token"""
+    return ';'.join(stmts).replace(';', '/').replace('=', '~')
+
+
+def elem_args(rng, encs, pg, n):
+    """(class, 'e=…' style argument suffix generator) for n elements"""
+    out = []
+    be = pg.base_elems()
+    for E in be:
+        out.append((E[0], lambda key, E=E: '%sp=%s' % (key, prog_arg(E[1]))))
+    for s in encs[:n]:
+        out.append(('decoded', lambda key, s=s: '%s=%s' % (key, h32(s))))
+    return out
+
+
+def sqrt_candidates(x):
+    """every y able to satisfy some case equation of the isqrt gadget for input x, plus both flags"""
+    ys = {0, 1, q - 1}
+    if x % q != 0:
+        inv = M.inv(x)
+        for v in (inv, M.zeta * inv % q):
+            if M.leg(v) == 1:
+                sr = M.sqrt(v)
+                ys.add(sr)
+                ys.add((q - sr) % q)
+    return sorted(ys)
+
+
+def native_decode_enc(s):
+    """the canonical encoding that native decoding of the field element s yields, or None"""
+    if s >= q or M.neg(s):
+        return None
+    P = M.decode(s)
+    if P is None:
+        return None
+    return s
+
+
+def gen_C13(rng, tier):
+    cases = []
+    R = ('r1cs',)
+    encs = valid_encodings(rng, 8 if tier == 'quick' else 40)
+    pg = ProgGen(rng, encs)
+    fvals = special_fq(rng, 6 if tier == 'quick' else 60)
+    sat1 = lambda out, bld: None if gfields(out).get('sat') == '1' else 'honest synthesis is not satisfied'
+    for x in fvals:
+        def orc(out, bld, x=x):
+            f = gfields(out)
+            if f.get('sat') != '1':
+                return 'honest isqrt not satisfied'
+            fl, y = f['out'].split(',')
+            y = int.from_bytes(bytes.fromhex(y), 'little')
+            if x == 0:
+                return None if (fl, y) == ('0', 0) else 'isqrt(0) must be (false, 0)'
+            sq = M.leg(x) == 1
+            ok = (fl == '1' and y * y * x % q == 1) if sq else (fl == '0' and y * y * x % q == M.zeta)
+            return None if ok else 'isqrt value differs from the native contract'
+        cases.append(Case('g.isqrt x=%s' % h32(x), builds=R, cls='isqrt', oracle=orc, canon=gcanon))
+        for op, fn in (('isneg', lambda v: str(v & 1)), ('isnonneg', lambda v: str(1 - (v & 1))), ('abs', lambda v: h32((q - v) % q if v & 1 else v))):
+            cases.append(Case('g.%s x=%s' % (op, h32(x)), builds=R, cls=op, canon=gcanon,
+                              oracle=lambda out, bld, e=fn(x): None if gfields(out).get('sat') == '1' and gfields(out).get('out') == e else 'sign gadget differs from native'))
+        # elligator
+        cases.append(Case('g.elligator r0=%s' % h32(x), builds=R, cls='elligator', canon=gcanon, spec='spec.gell %s' % h32(x)))
+    # decompress: satisfied exactly when native decoding succeeds
+    for cls, b in near_misses(rng, encs[:4] if tier == 'quick' else encs[:20]):
+        v = int.from_bytes(bytes.fromhex(b), 'little')
+        if v >= q:
+            continue
+        ne = native_decode_enc(v)
+        def orc(out, bld, ne=ne, v=v):
+            f = gfields(out)
+            if ne is None:
+                return None if f.get('sat') == '0' else 'invalid encoding decoded in-circuit by the honest prover'
+            return None if f.get('sat') == '1' and f.get('out') == h32(ne) else 'decompress gadget differs from native decoding'
+        cases.append(Case('g.decompress s=%s' % h32(v), builds=R, cls='decompress:' + cls, oracle=orc, canon=gcanon))
+    els = elem_args(rng, encs, pg, 4)
+    for cls, mk in els:
+        cases.append(Case('g.compress %s' % mk('e'), builds=R, cls='compress:' + cls, oracle=sat1, canon=gcanon))
+        for op in ('neg', 'dbl'):
+            cases.append(Case('g.%s %s' % (op, mk('a')), builds=R, cls=op + ':' + cls, oracle=sat1, canon=gcanon))
+        for mode in ('alloc_witness', 'alloc_witness_aff', 'alloc_constant'):
+            cases.append(Case('g.%s %s' % (mode, mk('e')), builds=R, cls=mode + ':' + cls, oracle=sat1, canon=gcanon))
+        def oinp(out, bld):
+            f = gfields(out)
+            o = f.get('out', '')
+            m = re.match(r'([0-9a-f]{64});inst=0100000000000000000000000000000000000000000000000000000000000000,([0-9a-f]{64});tfe=([0-9a-f]{64})$', o)
+            if f.get('sat') != '1' or not m:
+                return 'public input allocation: ' + out[:200]
+            return None if m.group(1) == m.group(2) == m.group(3) and f.get('ni') == '2' else 'public input is not exactly [1, encoding]'
+        cases.append(Case('g.alloc_input %s' % mk('e'), builds=R, cls='alloc_input:' + cls, oracle=oinp, nomodel=True))
+        for bits in ('', '0', '1', '101', '0001', ''.join(rng.choice('01') for _ in range(24))) + ((''.join(rng.choice('01') for _ in range(253)),) if tier == 'thorough' else ()):
+            cases.append(Case('g.scalarmul %s bits=%s' % (mk('a'), bits), builds=R, cls='scalarmul:%dbits' % len(bits), oracle=sat1, canon=gcanon))
+        # lazy forcing: every order and repetition
+        seqs = [[]]
+        for L in range(1, 4 if tier == 'quick' else 5):
+            seqs += [[a] + s for a in ('enc', 'elem', 'clone_enc', 'clone_elem')[:2 if tier == 'quick' else 4] for s in seqs if len(s) == L - 1]
+        def olazy(out, bld):
+            f = gfields(out)
+            if f.get('sat') != '1':
+                return 'lazy variable: honest forcing not satisfied'
+            steps = [st for st in f.get('out', '').split('|') if st]
+            vals = {}
+            nonzero = 0
+            for st in steps:
+                name, rest = st.split(':', 1)
+                val, delta = rest.rsplit('+', 1)
+                kind = 'enc' if name.endswith('enc') else 'elem'
+                if kind in vals and vals[kind] != val:
+                    return 'value changed on repeated forcing'
+                vals[kind] = val
+                if delta != '0':
+                    nonzero += 1
+            if nonzero > 1:
+                return 'constraints emitted more than once'
+            if 'enc' in vals and 'elem' in vals and vals['enc'] != vals['elem']:
+                return 'encoding and element of a lazy variable disagree'
+            return None
+        for sq in seqs:
+            cases.append(Case('g.lazy from=elem %s ops=%s' % (mk('e'), ','.join(sq)), builds=R, cls='lazy-from-elem:%d' % len(sq), oracle=olazy, canon=gcanon))
+    for s in encs[:4]:
+        for sq in seqs:
+            cases.append(Case('g.lazy from=enc s=%s ops=%s' % (h32(s), ','.join(sq)), builds=R, cls='lazy-from-enc:%d' % len(sq), oracle=olazy, canon=gcanon))
+    for _ in range(8 if tier == 'quick' else 80):
+        (ca, ma), (cb, mb) = rng.choice(els), rng.choice(els)
+        for op in ('add', 'sub', 'add_ref', 'sub_ref', 'add_asg', 'sub_asg', 'add_const', 'sub_const', 'add_const_asg', 'sub_const_asg', 'iseq', 'select'):
+            cases.append(Case('g.%s %s %s c=%d' % (op, ma('a'), mb('b'), rng.randrange(2)), builds=R, cls=op, oracle=sat1, canon=gcanon))
+        cases.append(Case('g.enforce_eq %s %s' % (ma('a'), mb('b')), builds=R, cls='enforce_eq', canon=gcanon))
+        cases.append(Case('g.enforce_neq %s %s' % (ma('a'), mb('b')), builds=R, cls='enforce_neq', canon=gcanon))
+        cases.append(Case('g.enforce_eq %s %s' % (ma('a'), ma('b')), builds=R, cls='enforce_eq:same', oracle=sat1, canon=gcanon))
+    return cases
+
+
+def gen_C14(rng, tier):
+    cases = []
+    R = ('r1cs',)
+    encs = valid_encodings(rng, 6 if tier == 'quick' else 30)
+    pg = ProgGen(rng, encs)
+    fvals = special_fq(rng, 4 if tier == 'quick' else 40)
+    def hints_for(den):
+        hs = []
+        for y in sqrt_candidates(den) + [rng.randrange(q)]:
+            for fl in (0, 1):
+                hs.append((fl, y))
+        return hs
+    # isqrt itself
+    for x in fvals:
+        for fl, y in hints_for(x):
+            def orc(out, bld, x=x):
+                f = gfields(out)
+                if f.get('sat') != '1':
+                    return None
+                fl2, y2 = f['out'].split(',')
+                y2 = int.from_bytes(bytes.fromhex(y2), 'little')
+                if x == 0:
+                    return None if (fl2, y2) == ('0', 0) else 'isqrt accepts a forged hint at den = 0'
+                sq = M.leg(x) == 1
+                ok = (fl2 == '1' and y2 * y2 * x % q == 1) if sq else (fl2 == '0' and y2 * y2 * x % q == M.zeta)
+                return None if ok else 'isqrt accepts a hint that violates the native contract'
+            cases.append(Case('g.isqrt x=%s hint=%d,%s' % (h32(x), fl, h32(y)), builds=R, cls='isqrt:den%s' % ('=0' if x == 0 else '!=0'), oracle=orc, canon=gcanon,
+                              sig='isqrt:den%s:hint=%d:y2=%s' % ('0' if x == 0 else 'N', fl, '1' if y * y % q == 1 else ('0' if y == 0 else 'x'))))
+    # decompress under every hint
+    svals = [v for v in ([0, 8, 1, 2, q - 1, q - 2, (q - 1) // 2] + encs + [rng.randrange(q) for _ in range(6 if tier == 'quick' else 60)]) if v < q]
+    for s in svals:
+        ss = s * s % q
+        u1 = (1 - ss) % q
+        u2 = (u1 * u1 - 4 * M.d * ss) % q
+        den = u2 * u1 * u1 % q
+        ne = native_decode_enc(s)
+        for fl, y in hints_for(den):
+            def orc(out, bld, ne=ne):
+                f = gfields(out)
+                if f.get('sat') != '1':
+                    return None
+                if ne is None:
+                    return 'an invalid encoding is decoded in-circuit under a forged hint'
+                return None if f.get('out') == h32(ne) else 'decompress output differs from native under a forged hint'
+            cases.append(Case('g.decompress s=%s hint=%d,%s' % (h32(s), fl, h32(y)), builds=R, cls='decompress:%s' % ('valid' if ne is not None else 'invalid'), oracle=orc, canon=gcanon,
+                              sig='decompress:den%s:hint=%d:y2=%s' % ('0' if den == 0 else 'N', fl, '1' if y * y % q == 1 else ('0' if y == 0 else 'x'))))
+    # compress / elligator under every hint
+    els = elem_args(rng, encs, pg, 3)
+    for cls, mk in els:
+        # den of compress depends on the element; offer the universal candidates plus random
+        for fl in (0, 1):
+            for y in (0, 1, q - 1, rng.randrange(q)):
+                cases.append(Case('g.compress %s hint=%d,%s' % (mk('e'), fl, h32(y)), builds=R, cls='compress-forged:' + cls, canon=gcanon,
+                                  spec='g.compress %s' % mk('e'), spec_when=lambda io: gfields(io).get('sat') == '1'))
+    for r0 in fvals:
+        rr = M.zeta * r0 * r0 % q
+        den = (M.D * rr - (M.D - M.A)) * ((M.D - M.A) * rr - M.D) % q
+        num = (rr + 1) * (M.A - 2 * M.D) % q
+        for fl, y in hints_for(num * den % q):
+            cases.append(Case('g.elligator r0=%s hint=%d,%s' % (h32(r0), fl, h32(y)), builds=R, cls='elligator-forged', canon=gcanon, spec='spec.gell %s' % h32(r0),
+                              spec_when=lambda io: gfields(io).get('sat') == '1'))
+    # witnessed coordinates: off-curve, odd coset, (0,0), another element
+    coords = [('zero-zero', 0, 0), ('identity', 0, 1), ('T2', 0, q - 1)]
+    i4 = M.sqrt(q - 1)
+    coords += [('order4', i4, 0), ('order4-', q - i4, 0)]
+    for _ in range(6 if tier == 'quick' else 60):
+        P = M.randpoint()
+        even = M.leg(1 - M.d * P[0] * P[0]) == 1
+        coords.append(('on-curve-even' if even else 'on-curve-odd', P[0], P[1]))
+        coords.append(('off-curve', P[0], (P[1] + 1) % q))
+        coords.append(('swapped', P[1], P[0]))
+    for cls, x, y in coords:
+        on = (M.A * x * x + y * y - 1 - M.d * x * x * y * y) % q == 0
+        even = on and M.leg(1 - M.d * x * x) == 1
+        def orc(out, bld, even=even):
+            f = gfields(out)
+            if f.get('sat') != '1':
+                return None
+            return None if even else 'witness allocation accepts coordinates that are not a group element'
+        cases.append(Case('g.alloc_witness exy=%s,%s' % (h32(x), h32(y)), builds=R, cls='alloc-coords:' + cls, oracle=orc, canon=gcanon))
+        for fl, yy in ((1, 1), (1, q - 1), (0, 0)):
+            cases.append(Case('g.alloc_witness exy=%s,%s hint=%d,%s' % (h32(x), h32(y), fl, h32(yy)), builds=R, cls='alloc-coords-forged:' + cls, oracle=orc, canon=gcanon))
+    return cases
+
+
+def gen_C15(rng, tier):
+    cases = []
+    R = ('r1cs',)
+    encs = valid_encodings(rng, 6 if tier == 'quick' else 30)
+    pg = ProgGen(rng, encs)
+    els = elem_args(rng, encs, pg, 3)
+    groups = {}
+    def shape(gadget, arg, cls):
+        groups.setdefault(gadget, [])
+        c = Case('g.shape gadget=%s %s' % (gadget, arg), builds=R, cls='shape:%s:%s' % (gadget, cls), nomodel=True)
+        groups[gadget].append(c)
+        cases.append(c)
+    for x in special_fq(rng, 3)[:12]:
+        shape('isqrt', 'x=%s' % h32(x), 'special')
+        shape('elligator', 'r0=%s' % h32(x), 'special')
+        shape('abs', 'x=%s' % h32(x), 'special')
+    for s in [0, 8] + encs[2:6]:
+        shape('decompress', 's=%s' % h32(s), 'valid')
+    for s in [1, q - 1, 2, 5]:
+        shape('decompress', 's=%s' % h32(s), 'invalid')
+    for cls, mk in els:
+        shape('compress', mk('e'), cls)
+        shape('alloc_witness', mk('e'), cls)
+        shape('alloc_input', mk('e'), cls)
+        shape('neg', mk('a'), cls)
+        shape('dbl', mk('a'), cls)
+        (cb, mb) = rng.choice(els)
+        shape('add', mk('a') + ' ' + mb('b'), cls)
+        shape('iseq', mk('a') + ' ' + mb('b'), cls)
+        shape('select', mk('a') + ' ' + mb('b') + ' c=%d' % rng.randrange(2), cls)
+        shape('scalarmul', mk('a') + ' bits=%s' % ''.join(rng.choice('01') for _ in range(16)), cls)
+    # the oracle is relational over the group: same digest for every input and in both modes
+    def mk_orc(gadget):
+        seen = {}
+        def orc(out, bld):
+            m = re.match(r'prove=(\S+) setup=(\S+)$', out)
+            if not m:
+                return 'no shape: ' + out[:100]
+            if m.group(1) != m.group(2):
+                return 'constraint system differs between setup and proving mode'
+            if gadget in seen and seen[gadget] != m.group(1):
+                return 'constraint matrices depend on the input value'
+            seen[gadget] = m.group(1)
+            return None
+        return orc
+    for gadget, cs in groups.items():
+        o = mk_orc(gadget)
+        for c in cs:
+            c.oracle = o
+    # public input = [1, encode P] = to_field_elements, for every representative
+    for cls, mk in els:
+        def oinp(out, bld):
+            f = gfields(out)
+            o = f.get('out', '')
+            m = re.match(r'([0-9a-f]{64});inst=0100000000000000000000000000000000000000000000000000000000000000,([0-9a-f]{64});tfe=([0-9a-f]{64})$', o)
+            if f.get('sat') != '1' or not m:
+                return 'public input allocation: ' + out[:200]
+            return None if m.group(1) == m.group(2) == m.group(3) and f.get('ni') == '2' else 'public input is not exactly [1, encoding]'
+        cases.append(Case('g.alloc_input %s' % mk('e'), builds=R, cls='public-input:' + cls, oracle=oinp, nomodel=True))
+    if tier == 'thorough':
+        ok = expect('verify=1 wrong_input=0')
+        for s in encs[:4]:
+            for circ in ('compression', 'decompression', 'public_element_input', 'negation'):
+                cases.append(Case('g.groth16 circuit=%s e=%s seed=%d' % (circ, h32(s), rng.getrandbits(30)), builds=R, cls='groth16:' + circ, oracle=ok, nomodel=True))
+        for x in special_fq(rng, 2)[:6]:
+            cases.append(Case('g.groth16 circuit=elligator r0=%s seed=%d' % (h32(x), rng.getrandbits(30)), builds=R, cls='groth16:elligator', oracle=ok, nomodel=True))
+        for _ in range(3):
+            cases.append(Case('g.groth16 circuit=discrete_log scalar=%s seed=%d' % (h32(rng.getrandbits(256)), rng.getrandbits(30)), builds=R, cls='groth16:discrete_log', oracle=ok, nomodel=True))
+    return cases
+
+
+# ------------------------------------------------------------------------------------------------
+# C16 BLS12-377 engine vs the reference engine (both linked into the arkworks harness)
+
+def gen_C16(rng, tier):
+    cases = []
+    def pairs_equal(n):
+        def f(out, bld):
+            t = out.split(' ')
+            for i in range(0, 2 * n, 2):
+                if t[i] != t[i + 1]:
+                    return 'engines differ (field %d): ours %s.. reference %s..' % (i // 2, t[i][:24], t[i + 1][:24])
+            rest = t[2 * n:]
+            for tok in rest:
+                if tok.endswith('=0'):
+                    return 'pairing law violated: ' + tok
+            return None
+        return f
+    cases.append(Case('bls.gen', builds=('ark',), cls='generators', oracle=pairs_equal(4), nomodel=True))
+    sc = [0, 1, 2, q - 1, q, q + 1, (q - 1) // 2, 1 << 64, (1 << 253) - 1, (1 << 256) - 1] + [rng.getrandbits(256) for _ in range(6 if tier == 'quick' else 40)]
+    for i in range(len(sc) if tier == 'thorough' else 10):
+        a, b = rng.choice(sc), rng.choice(sc)
+        cases.append(Case('bls.mul %s %s' % (h32(a), h32(b)), builds=('ark',), cls='mul-pairing', oracle=pairs_equal(3), nomodel=True))
+        cases.append(Case('bls.xchg %s %s' % (h32(a), h32(b)), builds=('ark',), cls='serialisation-exchange', oracle=expect('xchg=1'), nomodel=True))
+    return cases
+
+
+# ------------------------------------------------------------------------------------------------
 
 # properties whose Props/Cxx.lean carries kernel-checked property theorems are claimed at level `proof`;
 # the others run the correspondence + oracle only until their theorems land
-LEVELS = {}
+LEVELS = {'C16': 'proof', 'C15': 'other'}
 
 TB_FIELD = ['arkworks Montgomery arithmetic and fiat-crypto primitives: modelled by contract (exact arithmetic mod p)']
 
@@ -818,5 +1154,9 @@ PROPS = {
 for pid, gen, extra in (
         ('C01', gen_C01, {}), ('C02', gen_C02, {}), ('C03', gen_C03, {}), ('C04', gen_C04, {}), ('C05', gen_C05, {}), ('C06', gen_C06, {}),
         ('C07', gen_C07, {}), ('C08', gen_C08, {}), ('C09', gen_C09, {}), ('C10', gen_C10, {}), ('C11', gen_C11, {}),
-        ('C12', gen_C12, dict(cross_build=True))):
+        ('C12', gen_C12, dict(cross_build=True)), ('C13', gen_C13, {}), ('C14', gen_C14, {}), ('C15', gen_C15, {}), ('C16', gen_C16, dict(const_facts='c16'))):
     PROPS[pid] = dict(level=LEVELS.get(pid, 'translation_validation'), modules=['Decaf.Props.%s' % pid], namespaces=[pid], gen=gen, trusted_base=list(TB_FIELD), **extra)
+PROPS['C15']['explanation'] = ('Observation, not proof: the constraint matrices are produced at run time by ark-r1cs-std and key compatibility is a fact about '
+                               'ark-groth16; the check digests to_matrices() of every gadget over all input classes and in Setup vs Prove mode, checks that a public '
+                               'element contributes exactly the instance [1, encode P] = to_field_elements, and (thorough) proves/verifies with the pinned keys and '
+                               'rejects a perturbed public input. What Lean proves about C15 is only public-input coherence (Props/C15.lean).')
